@@ -21,7 +21,7 @@ VERIF = Path(__file__).resolve().parent.parent
 REPO = Path(os.environ.get("VERIF_REPO", "/repo"))
 EVID = VERIF / "evidence"
 REPLAYS = VERIF / "replays"
-KNOWN = VERIF / "known_findings.json"
+KNOWN = Path(os.environ.get("VERIF_KNOWN", str(VERIF / "known_findings.json")))
 
 LEVELS = {"exploration", "fault_enumeration", "model_checking", "proof", "translation_validation", "other"}
 
